@@ -650,6 +650,135 @@ def check_iterate(ctx):
                       expected="C20/IterateData.v nexts", observed=o, oracle="C20_batches_closed_form / C20_epoch_structure / C20_eval_order")
 
 
+# ------------------------------------------------------------------ (b2) sharding over several devices
+
+def multidevice_worker(D, seed, quick):
+    """Runs in a sub-process started with XLA_FLAGS=--xla_force_host_platform_device_count=D (set
+    before jax is imported).  Returns {"devices", "shards": [(D, rows, shards)], "failures": [...]}."""
+    import contextlib
+    import io
+    import random
+    import jax
+    import jax.numpy as jnp
+    from scico.flax.train.input_pipeline import IterateData, create_input_iter, prepare_data
+    rng = random.Random(seed * 31 + D)
+    out = {"devices": jax.local_device_count(), "shards": [], "failures": [], "cases": 0}
+    if out["devices"] != D:
+        return out
+
+    def fail(what, inp, exp, obs):
+        out["failures"].append({"what": what, "input": inp, "expected": exp, "observed": obs})
+
+    def dataset(n):
+        idx = np.arange(n, dtype=np.float32)
+        img = idx.reshape(n, 1, 1, 1) * np.ones((1, 2, 2, 1), np.float32) + np.arange(4, dtype=np.float32).reshape(1, 2, 2, 1) / 8.0
+        lab = 3.0 * idx.reshape(n, 1, 1, 1) * np.ones((1, 2, 2, 1), np.float32) + 1.0
+        return {"image": jnp.asarray(img), "label": jnp.asarray(lab)}, img, lab
+
+    def unshard(bt, img, lab, b):
+        """device shards concatenated in device order -> (row indices, rows-are-dataset-rows)"""
+        a, l = np.asarray(bt["image"]), np.asarray(bt["label"])
+        shards = [[int(t) for t in a[d, :, 0, 0, 0]] for d in range(a.shape[0])]
+        rows = [t for s in shards for t in s]
+        ok = a.shape[0] == D and all(0 <= t < len(img) for t in rows) and \
+            np.array_equal(a.reshape((-1,) + a.shape[2:]), img[rows]) and np.array_equal(l.reshape((-1,) + l.shape[2:]), lab[rows])
+        return rows, shards, ok
+    for _ in range(3 if quick else 12):
+        m = rng.randint(2, 3)                       # rows per device (>= 2)
+        b = D * m
+        n = b * rng.randint(1, 3) + rng.randint(1, b - 1)      # not a multiple of the batch
+        steps = n // b
+        ds, img, lab = dataset(n)
+        key = jax.random.PRNGKey(rng.randint(0, 1000))
+        inp = {"devices": D, "n": n, "batch": b, "device_batch": m}
+        out["cases"] += 1
+        # prepare_data on an arbitrary host batch
+        pick = rng.sample(range(n), b)
+        sh = prepare_data({"image": jnp.asarray(img[pick]), "label": jnp.asarray(lab[pick])})
+        got = [[int(t) for t in np.asarray(sh["image"])[d, :, 0, 0, 0]] for d in range(np.asarray(sh["image"]).shape[0])]
+        out["shards"].append([D, pick, got])
+        # evaluation iterator: dataset order after un-sharding, over several epochs
+        it = create_input_iter(key, ds, b, train=False)
+        for j in range(2 * steps + 1):
+            rows, shards, ok = unshard(next(it), img, lab, b)
+            exp = list(range((j % steps) * b, (j % steps + 1) * b))
+            out["shards"].append([D, exp, shards])
+            if rows != exp or not ok:
+                fail("evaluation iterator over several devices does not yield the dataset rows in order after un-sharding "
+                     "(device shards concatenated in device order)", dict(inp, batch_number=j), exp, shards)
+                break
+        # training iterator: the sharded batch is IterateData's batch in the same row order
+        it, ref = create_input_iter(key, ds, b, train=True), IterateData(ds, b, True, key)
+        for j in range(steps + 2):
+            rows, shards, ok = unshard(next(it), img, lab, b)
+            exp = [int(t) for t in np.asarray(next(ref)["image"])[:, 0, 0, 0]]
+            if rows != exp or not ok:
+                fail("sharded training batch is not IterateData's batch in the same row order", dict(inp, batch_number=j), exp, shards)
+                break
+    # only_apply: outputs aligned with the dataset rows
+    from scico.flax.train.apply import only_apply
+    m = 2
+    b = D * m
+    n = 2 * b + rng.randint(1, b - 1)
+    r = np.random.RandomState(seed + D)
+    x = jnp.asarray((r.randint(-8, 9, size=(n, 8, 8, 1)) / 4.0).astype(np.float32))
+    model = make_model("ConvBNNet", 2, 1, 2)
+    v = model.init({"params": jax.random.PRNGKey(1)}, jnp.ones((1, 8, 8, 1), jnp.float32), train=False)
+    v = {"params": v["params"], "batch_stats": v["batch_stats"]}
+    with contextlib.redirect_stdout(io.StringIO()):
+        o, _ = only_apply({"seed": 0, "batch_size": b}, model, {"image": x, "label": x}, variables=v)
+    k = (n // b) * b
+    exp = np.asarray(model.apply(v, x[:k], train=False, mutable=False))
+    got = np.asarray(o)
+    out["cases"] += 1
+    if got.shape != exp.shape or float(np.max(np.abs(got - exp))) > 1e-5 * max(1.0, float(np.max(np.abs(exp)))):
+        perm = None
+        if got.shape == exp.shape:
+            perm = [int(np.argmin([float(np.max(np.abs(got[i] - exp[j]))) for j in range(k)])) for i in range(k)]
+        fail("only_apply over several devices: output rows are not aligned with the dataset rows",
+             {"devices": D, "n": n, "batch": b}, list(range(k)), {"output_row_i_matches_input_row": perm})
+    return out
+
+
+def start_multidevice(ctx):
+    """Launch the D = 2 and D = 4 workers (CPU, forced host device count) in the background."""
+    import subprocess
+    import sys
+    procs = []
+    for D in (2, 4):
+        env = dict(os.environ, XLA_FLAGS=f"--xla_force_host_platform_device_count={D}", JAX_PLATFORMS="cpu")
+        procs.append((D, subprocess.Popen(
+            ["timeout", "600", sys.executable, "-W", "ignore", "-m", "vf.props.C20", "--multidevice", str(D), str(ctx.seed),
+             "quick" if ctx.quick else "thorough"], stdout=subprocess.PIPE, stderr=subprocess.PIPE, text=True, env=env)))
+    return procs
+
+
+def collect_multidevice(ctx, procs):
+    import json
+    items, meta = [], []
+    for D, pr in procs:
+        o, e = pr.communicate()
+        line = [ln for ln in o.splitlines() if ln.startswith("C20-MULTIDEVICE ")]
+        if pr.returncode != 0 or not line:
+            ctx.obligation(False, f"C20: multi-device worker (D={D}) did not complete", (o + e)[-1500:])
+            continue
+        r = json.loads(line[-1][len("C20-MULTIDEVICE "):])
+        ctx.obligation(r["devices"] == D, f"C20: sub-process runs with {D} host devices", f"jax.local_device_count() = {r['devices']}")
+        for _ in range(r["cases"]):
+            ctx.count(f"sharding:{D}-devices", {"devices": D, "seed": ctx.seed, "k": _})
+        for f in r["failures"]:
+            ctx.violation("input_pipeline", f["what"], dict(f["input"], multidevice_seed=ctx.seed), expected=f["expected"],
+                          observed=f["observed"], oracle="C20_sharding / C20_eval_order")
+        for d, rows, shards in r["shards"]:
+            items.append(f"({d}, {nl(rows)}, {coq_list([nl(t) for t in shards])})")
+            meta.append({"devices": d, "rows": rows, "shards": shards, "multidevice_seed": ctx.seed})
+    for i in eval_cases("C20_shard", "shard_case_ok", items):
+        ctx.violation("input_pipeline", "prepare_data does not give device d the contiguous block of rows d*m .. d*m+m-1 "
+                      "(un-sharding in device order must return the host batch)", meta[i], expected="C20/Sharding.v shard",
+                      observed=meta[i]["shards"], oracle="C20_sharding")
+    ctx.dist["sharding:batches-compared-in-coq"] = len(items)
+
+
 # ------------------------------------------------------------------ run / replay
 
 def run(ctx: Ctx):
@@ -667,12 +796,16 @@ def run(ctx: Ctx):
     ]
     ctx.assumptions += ["checkpoint store specification is stated for saves at strictly increasing steps (what the trainer does)",
                         "n >= batch_size >= 1 for IterateData"]
+    procs = start_multidevice(ctx)          # sub-processes with 2 and 4 host devices, collected below
     check_flaxmap(ctx)
     check_iterate(ctx)
     check_variables(ctx)
     check_checkpoints(ctx)
     check_only_apply(ctx)
     check_trainer_resume(ctx)
+    collect_multidevice(ctx, procs)
+    ctx.notes.append("sharding / evaluation order / only_apply alignment checked in sub-processes with "
+                     "XLA_FLAGS=--xla_force_host_platform_device_count=2 and 4")
     ctx.notes.append("Orbax ran offline (real CheckpointManager, scratch under build/C20)")
 
 
@@ -710,6 +843,11 @@ def replay(ctx: Ctx, rec):
             return trees_bit_equal(v, roundtrip_variables(v, "replay")) is None
         except Exception:     # noqa: BLE001
             return False
+    if unit == "input_pipeline":
+        c2 = Ctx(ctx.pid, "quick", int(c.get("multidevice_seed", 0)))
+        c2.known = []
+        collect_multidevice(c2, start_multidevice(c2))
+        return not c2.violations and not c2.broken
     if unit == "only_apply":
         try:
             o = run_only_apply_case(c)
@@ -723,3 +861,13 @@ def replay(ctx: Ctx, rec):
         vs = coq_list([f"({s}, {j})" for j, s in enumerate(c["steps"])])
         return eval_cases("C20_replay", "ckpt_case_ok", [f"({vs}, {nl(o['listing'])}, ({o['restored_step']}, {o['restored_id']}))"]) == []
     raise SystemExit("replay not supported for this record (re-run ./check C20)")
+
+
+if __name__ == "__main__":
+    import json
+    import sys
+    if len(sys.argv) >= 5 and sys.argv[1] == "--multidevice":
+        import logging
+        logging.getLogger("absl").setLevel(logging.ERROR)
+        res = multidevice_worker(int(sys.argv[2]), int(sys.argv[3]), sys.argv[4] == "quick")
+        print("C20-MULTIDEVICE " + json.dumps(res))
